@@ -40,13 +40,14 @@ FUNCS = [
     ("pollRemovals", "", "(pollRemovals s).1", ["removedBuf", "removedOld"], "POLLREM"),
     ("clearTrackers", "", "clearTrackers s", ["removedBuf", "removedOld"], "rfl"),
     ("pollDespawns", "", "(pollDespawns s).1", ["dspChan", "tblDsp"], "POLLDSP"),
-    ("observe", "(w : Option Nat)", "(observe s w).2", ["data"], "unfold observe; dsimp only; split <;> (try split) <;> rfl"),
+    ("bumpLocal", "(w : Option Nat)", "bumpLocal s w", ["ewLocal"], "unfold bumpLocal; split <;> (try split) <;> rfl"),
+    ("observe", "(w : Option Nat)", "(observe s w).2", ["data", "ewLocal"], "OBSERVE"),
     ("enqueue", "(a : Act)", "(enqueue s a).1", ["nextEnt", "alive", "entNames", "sysNames", "info", "tokens", "res", "comp", "trace"],
         "cases a <;> simp only [enqueue] <;> repeat' (first | rfl | split | dsimp only)"),
     ("applyCmd", "(c : Cmd)", "applyCmd s c", [f for f in FIELDS if f not in ("counter", "buffered", "info", "res", "children", "topIdx", "entNames", "sysNames", "tokens", "sigs", "wrSys", "ewrSys", "wq", "removedOld")],
         "APPLYCMD"),
     ("preBody", "(sys : Nat) (k : Kind)", "preBody s sys k", TRK + ["arcRc", "autoChan", "trace"], "unfold preBody; dsimp only; split <;> simp"),
-    ("startBody", "(sys : Nat) (k : Kind)", "startBody s sys k", TRK + ["arcRc", "autoChan", "trace", "info", "data"], "STARTBODY"),
+    ("startBody", "(sys : Nat) (k : Kind)", "startBody s sys k", TRK + ["arcRc", "autoChan", "trace", "info", "data", "ewLocal"], "STARTBODY"),
     ("doBatch", "(cs : List Cmd)", "doBatch s cs", APPLY_T + ["stack"], "cases cs <;> simp [doBatch, St.push]"),
     ("doFlush", "", "doFlush s", ["wq", "stack"], "unfold doFlush; split <;> simp [St.push]"),
     ("doBodyActs", "(p : Prog) (sys : Nat) (k : Kind) (i : Nat) (acc : List Cmd)", "doBodyActs p s sys k i acc", ENQ_T + ["stack"], "unfold doBodyActs; split <;> simp [St.push]"),
@@ -54,7 +55,7 @@ FUNCS = [
     ("doTopActs", "(h : Hist) (t i : Nat)", "doTopActs h s t i", ENQ_T + ["stack", "wq"], "unfold doTopActs; split <;> simp [St.push]"),
     ("doOnceTail", "(sys : Nat)", "doOnceTail s sys", KILL + ["wq", "stack"], "simp [doOnceTail, St.push]"),
     ("doRunnerStart", "(sys : Nat) (k : Kind)", "doRunnerStart s sys k", ["trace", "stack"], "simp [doRunnerStart, St.push]"),
-    ("doRunnerLookup", "(sys : Nat) (k : Kind) (idx : Nat)", "doRunnerLookup s sys k idx", TRK + ["arcRc", "autoChan", "trace", "info", "data", "storage", "counter", "buffered", "stack", "wq"],
+    ("doRunnerLookup", "(sys : Nat) (k : Kind) (idx : Nat)", "doRunnerLookup s sys k idx", TRK + ["arcRc", "autoChan", "trace", "info", "data", "ewLocal", "storage", "counter", "buffered", "stack", "wq"],
         "BLOCK:unfold doRunnerLookup|split|· simp [St.push]|· split|  · simp [St.push]|  · split <;> simp [St.push]|  · dsimp only|    split|    · simp [St.push]|    · split|      · simp [St.push]|      · split <;> simp [St.push]"),
     ("doAfterBody", "(sys idx : Nat)", "doAfterBody s sys idx", ["trace", "stack"], "simp [doAfterBody, St.push]"),
     ("doReinsert", "(sys idx : Nat)", "doReinsert s sys idx", ["storage", "trace", "stack"], "unfold doReinsert; repeat' (first | split | dsimp only) <;> simp [St.push]"),
@@ -111,6 +112,9 @@ for f, binders, app, touched, tac in FUNCS:
             out.append("  refine (foldl_field (fun s => s.%s) (fun (s : St) pid => s.emit (Ev.dropPayload pid)) (fun _ _ => rfl) _ _).trans ?_" % fld)
             out.append("  show (observe (preBody s sys k) _).2.%s = _" % fld)
             out.append("  simp")
+        elif tac == "OBSERVE":
+            out.append("@[simp] theorem %s (s : St)%s : (%s).%s = s.%s := by" % (name, b, app, fld, fld))
+            out.append("  unfold observe; dsimp only; rw [bumpLocal_%s]; split <;> (try split) <;> rfl" % fld)
         elif tac == "APPLYCMD":
             out.append("@[simp] theorem %s (s : St)%s : (%s).%s = s.%s := by" % (name, b, app, fld, fld))
             out.append("  cases c <;> simp only [applyCmd] <;> (try split) <;> (try split) <;> (try split) <;> (try simp [St.push, St.fresh])")
